@@ -800,6 +800,20 @@ def check_tr(res, spec, ts=TS, modes=MODES, first_only=True):
         s2 = translate_spec(spec, tx, ty)
         reg2 = G.build(s2)
         case = {'kind': 'tr', 'spec': spec, 'T': [tx, ty]}
+        import zlib
+        if cls != 'compound' and zlib.crc32(repr((sorted(spec.items(), key=str), tx, ty)).encode()) % 3 == 0:
+            # another history to the same translated region: the original object, already used, has its coordinates re-assigned
+            moved = G.build(spec)
+            try:
+                moved.bounding_box
+                moved.to_mask('center')
+            except Exception:      # noqa: BLE001 -- reported below for reg0 / reg2
+                pass
+            for key in ('center', 'vertices', 'start', 'end'):
+                if hasattr(reg2, key) and key in getattr(reg2, '_params', ()):
+                    setattr(moved, key, getattr(reg2, key))
+            reg2 = moved
+            case['route'] = 'original object moved by assignment'
         res.transitions += 1
         try:
             b2 = _box(reg2.bounding_box)
